@@ -22,6 +22,7 @@ import (
 
 func init() {
 	commands["once"] = func(a []string) int { return nativeMain("once", a) }
+	commands["kmunhash"] = func(a []string) int { return nativeMain("kmunhash", a) }
 	commands["avtypes"] = func(a []string) int { return nativeMain("avtypes", a) }
 	commands["avfirst"] = func(a []string) int { return nativeMain("avfirst", a) }
 	commands["poolpc"] = func(a []string) int { return nativeMain("poolpc", a) }
@@ -88,6 +89,8 @@ func nativeMain(kind string, args []string) int {
 			header, comment, lines = avFirst(r)
 		case "avtypes":
 			header, comment, lines = avTypes(r)
+		case "kmunhash":
+			header, comment, lines = kmUnhashable(r)
 		case "poolpc":
 			runtime.GOMAXPROCS(8)
 			header, comment, lines = poolProdCons(r)
@@ -542,6 +545,88 @@ func avFirst(r *rand.Rand) (string, string, []string) {
 	i2 := fl.stamp()
 	fl.per[0] = append(fl.per[0], fastEv{i1, "inv 0 load"}, fastEv{i2, fmt.Sprintf("res 0 %d", v)})
 	return "av", fmt.Sprintf("avfirst workers=%d", nw), fl.lines()
+}
+
+// kmUnhashable (C09): a KeyedMutex/KeyedRWMutex over `any` keys is handed a key of an unhashable dynamic type (a slice): that call panics (Go's
+// map semantics; recovered here) - and every OTHER key must remain usable afterwards: the trace holds only the calls on the ordinary keys
+// (a call that does not return within 3 s is recorded as a failed try-lock of a free key).
+func kmUnhashable(r *rand.Rand) (string, string, []string) {
+	fl := newFastLog(1)
+	var lines []fastEv
+	ev := func(format string, a ...any) { lines = append(lines, fastEv{fl.stamp(), fmt.Sprintf(format, a...)}) }
+	warm := r.Intn(3) // complete lock/unlock pairs on ordinary keys before the bad call
+	rw := r.Intn(2) == 1
+	km := &sync2.KeyedMutex[any]{}
+	krw := &sync2.KeyedRWMutex[any]{}
+	try := func(k int) bool {
+		done := make(chan bool, 1)
+		go func() {
+			if rw {
+				done <- krw.TryLockKey(k)
+			} else {
+				done <- km.TryLockKey(k)
+			}
+		}()
+		select {
+		case ok := <-done:
+			return ok
+		case <-time.After(3 * time.Second):
+			return false
+		}
+	}
+	unlock := func(k int) {
+		if rw {
+			krw.UnlockKey(k)
+		} else {
+			km.UnlockKey(k)
+		}
+	}
+	use := func(k int) {
+		ev("inv 0 trylock %d", k)
+		ok := try(k)
+		ev("res 0 %v", ok)
+		if ok {
+			ev("inv 0 unlock %d", k)
+			unlock(k)
+			ev("res 0 done")
+		}
+	}
+	for i := 0; i < warm; i++ {
+		use(i)
+	}
+	func() {
+		defer func() { recover() }()
+		bad := any([]int{1, 2})
+		switch r.Intn(3) {
+		case 0:
+			if rw {
+				krw.LockKey(bad)
+			} else {
+				km.LockKey(bad)
+			}
+		case 1:
+			if rw {
+				krw.TryLockKey(bad)
+			} else {
+				km.TryLockKey(bad)
+			}
+		default:
+			if rw {
+				krw.ClearKey(bad)
+			} else {
+				km.ClearKey(bad)
+			}
+		}
+	}()
+	for i := 0; i < 3; i++ {
+		use(10 + i%2)
+	}
+	fl.per[0] = lines
+	hdr := "km 0"
+	if rw {
+		hdr = "km 1"
+	}
+	return hdr, fmt.Sprintf("kmunhashable warm=%d rw=%v", warm, rw), fl.lines()
 }
 
 // avTypes: one goroutine, store / swap / load on AtomicValue[T] for T other than int, where DIFFERENT values compare equal with == (+0 and -0 in a
